@@ -60,7 +60,7 @@ func generate(w *mon.W) {
 		switch i % 9 {
 		case 0:
 			p = twinJoins(rng)
-		case 1:
+		case 1, 4:
 			p = summarizeThenNestedJoin(rng)
 		case 2:
 			p = distinctThenDuplicates(rng)
